@@ -165,6 +165,10 @@ def check(repo, res, tier):
         check_d1(res, f, names)
         check_d2(res, f)
         check_d3(res, canon, f)
+    check_seed_attrs(repo, res)
+    check_shared_state(repo, res, 'C10.D6',
+                       'a second simulation in the same process starts from the first one\'s state: its outputs differ '
+                       'from a run of the same configuration on its own')
     for why in sorted(SKIP_MODULES.items()):
         res.note('skipped %s: %s' % why)
     from . import c15
@@ -190,6 +194,113 @@ def check(repo, res, tier):
         f0 = c.find_method('__init__')
         (res.ok if has else res.bad)('C10.D4', f0, c.node, '%s has an address-free text form' % cn,
                                      'ok' if has else 'str(%s) contains a memory address' % cn)
+
+
+def check_seed_attrs(repo, res):
+    """D2b: what is passed as the seed of a generator (self.seed) is the constructor argument itself"""
+    from ..norm import ProvCanon
+    from ..paths import Frame
+    pc = ProvCanon(repo)
+    seen = set()
+    for f in repo.all_functions():
+        if f.module.name in SKIP_MODULES or f.cls is None:
+            continue
+        for n in walk_no_nested(f.node):
+            if isinstance(n, ast.Call) and call_name(n) in ('default_rng', 'RandomState', 'Random', 'seed') and n.args \
+                    and isinstance(n.args[0], ast.Attribute) and isinstance(n.args[0].value, ast.Name) \
+                    and n.args[0].value.id == 'self':
+                seen.add((f.cls.name, n.args[0].attr))
+    for cn, attr in sorted(seen):
+        cls = repo.cls(cn)
+        for m in cls.methods.values():
+            fr = Frame(m)
+            for n in walk_no_nested(m.node):
+                if isinstance(n, ast.Assign) and any(isinstance(t, ast.Attribute) and t.attr == attr and isinstance(
+                        t.value, ast.Name) and t.value.id == 'self' for t in n.targets):
+                    P = pc.p(n.value, fr)
+                    what = '%s.%s <- %s' % (cn, attr, short(P, 50))
+                    from ..paths import assigned_names as _an
+                    if P in m.params and not _an(m).get(P):
+                        res.ok('C10.D2', m, n, what, 'the constructor argument, unchanged')
+                    elif P in m.params:
+                        res.bad('C10.D2', m, n, what,
+                                'the seed argument `%s` is reassigned in %s before it is stored: some seed values are replaced '
+                                '(e.g. by None = fresh entropy), and two runs with that seed differ' % (P, m.qual))
+                    else:
+                        res.bad('C10.D2', m, n, what,
+                                'the seed stored for the generators is %s, not the seed that was passed: some seed values '
+                                'are replaced (e.g. by None = fresh entropy), and two runs with that seed differ' % short(P, 80))
+
+
+def check_shared_state(repo, res, rule, consequence):
+    """mutable state shared between instances or calls: (a) an instance attribute bound to a class-level
+    mutable display without a copy; (b) a mutable default argument that is changed, stored or returned"""
+    res.rule(rule, 'no instance attribute aliases a class-level mutable, no mutable default argument is changed or handed on')
+    n_seen = 0
+    for cls in repo.classes.values():
+        if not cls.module.name.startswith('topsim') or cls.module.name in SKIP_MODULES:
+            continue
+        shared = {}
+        for b in cls.node.body:
+            if isinstance(b, ast.Assign) and len(b.targets) == 1 and isinstance(b.targets[0], ast.Name) and isinstance(
+                    b.value, (ast.Dict, ast.List, ast.Set)) or (isinstance(b, ast.Assign) and isinstance(b.value, ast.Call)
+                                                             and call_name(b.value) in ('dict', 'list', 'set', 'defaultdict')
+                                                             and len(b.targets) == 1 and isinstance(b.targets[0], ast.Name)):
+                shared[b.targets[0].id] = b
+        for m in cls.methods.values():
+            for n in walk_no_nested(m.node):
+                if isinstance(n, ast.Assign) and isinstance(n.value, ast.Attribute) and n.value.attr in shared and (
+                        isinstance(n.value.value, ast.Name) and n.value.value.id in ('self', 'cls', cls.name)
+                        or (isinstance(n.value.value, ast.Call) and call_name(n.value.value) == 'type')) and any(
+                        isinstance(t, ast.Attribute) for t in n.targets):
+                    n_seen += 1
+                    res.bad(rule, m, n, '%s aliases the class-level %s' % (short(ast.unparse(n.targets[0])), n.value.attr),
+                            '`%s` binds an instance attribute to the class-level container %s.%s itself (no copy): every '
+                            'instance writes into one shared object -- %s' % (short(ast.unparse(n)), cls.name, n.value.attr, consequence))
+    for f in repo.all_functions():
+        if f.module.name in SKIP_MODULES:
+            continue
+        a = f.node.args
+        params = a.args + a.kwonlyargs
+        defaults = dict(zip([x.arg for x in a.args][len(a.args) - len(a.defaults):], a.defaults))
+        for kw, d in zip(a.kwonlyargs, a.kw_defaults):
+            if d is not None:
+                defaults[kw.arg] = d
+        for pn, d in defaults.items():
+            mutable = isinstance(d, (ast.Dict, ast.List, ast.Set)) or (
+                isinstance(d, ast.Call) and call_name(d) in ('dict', 'list', 'set', 'defaultdict', 'deque'))
+            if not mutable:
+                continue
+            n_seen += 1
+            uses = []
+            for n in walk_no_nested(f.node):
+                if isinstance(n, ast.Call) and isinstance(n.func, ast.Attribute) and isinstance(n.func.value, ast.Name) \
+                        and n.func.value.id == pn and n.func.attr in ('append', 'add', 'update', 'extend', 'insert', 'pop',
+                                                                     'remove', 'clear', 'setdefault', 'discard', 'popitem'):
+                    uses.append(n)
+                elif isinstance(n, ast.Subscript) and isinstance(n.ctx, (ast.Store, ast.Del)) and isinstance(
+                        n.value, ast.Name) and n.value.id == pn:
+                    uses.append(n)
+                elif isinstance(n, ast.AugAssign) and isinstance(n.target, ast.Name) and n.target.id == pn:
+                    uses.append(n)
+                elif isinstance(n, ast.Return) and n.value is not None and any(
+                        isinstance(x, ast.Name) and x.id == pn for x in ast.walk(n.value)):
+                    uses.append(n)
+                elif isinstance(n, ast.Call) and any(isinstance(x, ast.Name) and x.id == pn for x in n.args) and not (
+                        isinstance(n.func, ast.Name) and n.func.id in ('len', 'list', 'sorted', 'set', 'tuple', 'dict', 'str')):
+                    uses.append(n)
+                elif isinstance(n, ast.Assign) and isinstance(n.value, ast.Name) and n.value.id == pn and any(
+                        isinstance(t, (ast.Attribute, ast.Subscript)) for t in n.targets):
+                    uses.append(n)
+            if uses:
+                res.bad(rule, f, uses[0], '%s(%s=%s) is changed or handed on' % (f.qual, pn, short(ast.unparse(d), 20)),
+                        'the default value of parameter `%s` of %s is one mutable object shared by every call that omits the '
+                        'argument, and `%s` changes it or hands it on: state leaks from one call (workflow, simulation) into the '
+                        'next -- %s' % (pn, f.qual, short(ast.unparse(uses[0]), 60), consequence))
+            else:
+                res.ok(rule, f, f.node, '%s(%s=%s): the default is never changed or handed on' % (f.qual, pn, short(ast.unparse(d), 20)))
+    if not n_seen:
+        res.ok(rule, repo.func('Simulation.__init__'), None, 'no class-level mutable is aliased and no parameter has a mutable default')
 
 
 def check_d1(res, f, names):
